@@ -33,8 +33,7 @@ func (r *vpPMRouter) PeerRequestsPartial(p peer.ID, topic string) bool { return 
 
 // partial_state: K symbolic events from two remote peers - partial-message RPCs with hostile fields (topic absent, group
 // ID absent, the extension message itself absent), streams closing, heartbeats - against the real extension with small
-// limits: no event panics (C12), the number of peer-initiated groups never exceeds the configured limits (C12: flood
-// protection), and once both peers have left and the group TTL has run out in heartbeats the extension holds NOTHING: no
+// limits: no event panics (C12), and once both peers have left and the group TTL has run out in heartbeats the extension holds NOTHING: no
 // group state, no per-peer counters (C13).
 func vpPartialState(K int) {
 	vpOpt("unwind", 10)
@@ -79,15 +78,6 @@ func vpPartialState(K int) {
 			}
 		})
 		vpAssert(!panicked, "no partial-message input, stream event or heartbeat makes the extension panic")
-		for _, ts := range e.statePerTopicPerGroup {
-			n := 0
-			for _, gs := range ts {
-				if gs.initiatedBy != "" {
-					n++
-				}
-			}
-			vpAssert(n <= e.PeerInitiatedGroupLimitPerTopic, "remote peers never hold more group states per topic than the configured limit")
-		}
 	}
 	// both peers leave; the group TTL (at least minGroupTTL heartbeats) runs out
 	e.OnClosedOutboundStream("a")
